@@ -287,6 +287,46 @@ func c16Helpers(c *Ctx) {
 		}
 	}
 
+	// AddValue on the attributes of a NewEntry result: EVERY attribute of the entry keeps its two views equal, not only
+	// the one that was extended (attributes must not share storage)
+	for i := 0; i < c.N(300, 5000); i++ {
+		m := map[string][]string{}
+		for a, n := 0, 2+r.Intn(5); a < n; a++ {
+			var vals []string
+			for v := 0; v < 1+r.Intn(3); v++ {
+				vals = append(vals, fmt.Sprintf("v%d-%d-%s", a, v, string(r.Bytes(r.Intn(3)))))
+			}
+			m[fmt.Sprintf("attr%c", 'a'+a)] = vals
+		}
+		c.Count("calls", 1)
+		c.Count("entries_extended_with_addvalue", 1)
+		c.Distinct("calls", fmt.Sprintf("NewEntry+AddValue/%d", len(m)))
+		if msg, st := catch(func() {
+			e := gldap.NewEntry("cn=x", m)
+			for round := 0; round < 3; round++ {
+				for _, a := range e.Attributes {
+					if r.Bool() {
+						a.AddValue(fmt.Sprintf("added-%d-%s", round, a.Name))
+					}
+				}
+				for _, a := range e.Attributes {
+					if len(a.Values) != len(a.ByteValues) {
+						c.Violate("EntryAttribute Values/ByteValues length differ", fmt.Sprintf("attribute %s after AddValue calls on the entry's attributes", a.Name), len(m))
+						return
+					}
+					for k := range a.Values {
+						if a.Values[k] != string(a.ByteValues[k]) {
+							c.Violate("EntryAttribute Values/ByteValues differ", fmt.Sprintf("attribute %s value %d: string %q, bytes %q, after AddValue calls on the entry's attributes", a.Name, k, a.Values[k], a.ByteValues[k]), len(m))
+							return
+						}
+					}
+				}
+			}
+		}); msg != "" {
+			c16Panic(c, "NewEntry/AddValue", msg, st, len(m))
+		}
+	}
+
 	// ---- NewControl* constructors
 	type optSpec struct {
 		name string
